@@ -606,6 +606,26 @@ theorem non_canonical_ack_then_refund (ops : List Op) (e : SentRec) (a m : Nat) 
   simp only [h1]
   exact ⟨trivial, key.1, key.2.1, key.2.2.2.2.1, key.2.2.2.2.2⟩
 
+/-- The same for EVERY configuration and EVERY step list of the shape "steps that are neither the application nor the hook,
+then a canonical-encoding check whose error is returned, then anything": bytes the codec rejects and bytes that are not
+the canonical encoding make the callback fail before the application or the hook has run — in whatever order those two
+come afterwards, whatever they would decide.  (The repaired tree is the instance `pre = [decode-ack]`.) -/
+theorem canonical_check_first_blocks (cfg : Cfg) (pre post : List (String × String))
+    (h : cfg.ackSteps = pre ++ ("canonical-ack", "returned") :: post)
+    (hpre : ∀ st ∈ pre, st.1 ≠ "app" ∧ st.1 ≠ "hook") (s : State) (l : Ch) (seq : Seq) (p : Pkt) (w : AckWire)
+    (hw : w.isCanonical = false ∨ w = .undecodable) :
+    settleAckState cfg s l seq p w = none := by
+  unfold settleAckState runMw
+  rw [h, mwFold_canonical_first cfg s.ctl l seq p _ ?_ pre post hpre]
+  · rfl
+  · rcases hw with hw | hw
+    · simp [mwInOfAck, hw]
+    · subst hw; rfl
+
+-- the hypotheses are met by the regenerated list, with `pre = [decode-ack]`
+example : genCfg.ackSteps = [("decode-ack", "returned")] ++ ("canonical-ack", "returned") :: [("app", "returned"), ("decode-data", "returned"), ("hook", "returned")] ∧
+    (∀ st ∈ [(("decode-ack", "returned") : String × String)], st.1 ≠ "app" ∧ st.1 ≠ "hook") := by decide
+
 -- non-vacuity: both-arms bytes on an in-flight transfer: stuck, then the timeout refunds 40 as ERC-20
 example : (step (run init [.chan 0 1, .fund 5 .A 0 100, .send 0 5 .A 40]) (.ackw 0 1 (.nonCanonical 2 0))).2 = .stuck [(0, 1)] := by
   decide
@@ -919,7 +939,8 @@ Theorems of this file:
   wire_error_ack_refunds_erc20, wire_success_ack_only_removes_record, empty_error_text_witness, genCfg_middleware_steps,
   (round 4) genCfg_middleware_prog, standard_steps_are_app_then_hook, parse_recomputes_credited_denom,
   hook_sees_credited_denom, only_returning_fx_is_native, base_name_fast_path_witness, non_canonical_ack_changes_nothing,
-  non_canonical_ack_then_refund, both_arms_without_canonical_check_witness, hook_before_application_witness
+  non_canonical_ack_then_refund, canonical_check_first_blocks, both_arms_without_canonical_check_witness,
+  hook_before_application_witness
 -/
 
 end FxVerif.Props.C19
